@@ -41,6 +41,10 @@ def source(c, split=False):
     pos = c["pos"]
     if pos == "field":
         host = f"#[typeshare]\npub struct Host{g} {{ pub f: {t}, pub k: u32 }}\n"
+    elif pos == "field_default":     # the optional marker comes from serde(default), not from the type
+        host = f"#[typeshare]\npub struct Host{g} {{ #[serde(default)] pub f: {t}, pub k: u32 }}\n"
+    elif pos == "vfield_default":
+        host = f'#[typeshare]\n#[serde(tag = "t", content = "c")]\npub enum Host{g} {{ Sv {{ #[serde(default)] f: {t}, k: u32 }}, U }}\n'
     elif pos == "garg_pos":
         host = f"#[typeshare]\npub struct Host{g} {{ pub f: Gen<{t}>, pub k: u32 }}\n"
     elif pos == "payload":
